@@ -218,6 +218,8 @@ type runOpts struct {
 	Reply     func(*world.Reply)
 	Responder func(b *world.Backend, r *http.Request) *world.Reply
 	Cfg       func(*world.Config)
+	// RespondFirst: the backend writes this reply BEFORE it reads the request body.
+	RespondFirst *world.Reply
 }
 
 type runResult struct {
@@ -238,6 +240,12 @@ func (p *Pairing) run(o runOpts) runResult {
 			o.Reply(rep)
 		}
 		return rep
+	}
+	if o.RespondFirst != nil {
+		be.Raw = func(b *world.Backend, w http.ResponseWriter, r *http.Request) {
+			world.WriteReply(w, o.RespondFirst, &b.WriteErrs)
+			b.Seen.ReadBody(r.Body, b.ReadSizes)
+		}
 	}
 	cfg := p.config()
 	if o.Cfg != nil {
